@@ -50,7 +50,7 @@ var pureExternalPrefixes = []string{
 	"github.com/cosmos/cosmos-sdk/types.NewDecCoin", "github.com/cosmos/cosmos-sdk/types.NewDecCoins",
 	"(cosmossdk.io/math.Int).", "(cosmossdk.io/math.LegacyDec).", "cosmossdk.io/math.", "(cosmossdk.io/math.Uint).",
 	"github.com/cosmos/gogoproto/proto.", "github.com/gogo/protobuf/proto.", "github.com/golang/protobuf/proto.", "google.golang.org/protobuf/proto.",
-	"github.com/lavanet/lava/v5/protocol/parser.CapStringLen",
+	"github.com/lavanet/lava/v5/protocol/parser.CapStringLen", "github.com/lavanet/lava/v5/utils/common/types.ValidateString",
 	"unicode/utf8.", "slices.", "maps.", "golang.org/x/exp/slices.", "golang.org/x/exp/maps.",
 }
 
